@@ -8,7 +8,8 @@ from vlib.runner import fail, hyp_run
 LEVEL = "exploration"
 RULE_EXTRA = (" eps is drawn above and below the cell size; the density is passed as a Python int or as a numpy "
               "int64/int32 scalar; SolverParameters.startPoint is set in a fifth of the cases (every trial, the first "
-              "included, must lie on the grid).")
+              "included, must lie on the grid); a fifth of the boxes are integer-valued and handed over as Python int lists or "
+              "integer arrays.")
 RULE = ("Hypothesis-generated: evolventDensity m in 2..12, N in 2..5, arbitrary box, any objective family, budgets "
         "of 5..100 trials, Solve or DoGlobalIteration; oracle: every evaluated point y satisfies "
         "(y_i-lower_i)/(upper_i-lower_i)*2^m - 1/2 = integer in [0,2^m) within 1e-6 (a centre of the density-m grid "
